@@ -61,6 +61,17 @@ def random_lens(rnd, nsurf=None, kinds=("standard",), mirrors=False, tilts=False
     epd = rnd.uniform(1.0, 8.0)
     lo = 4.0 * epd
     obj_t = rnd.uniform(40.0, 400.0) if finite_object else math.inf
+    # the order of the configuration calls is the user's (decided from a number already drawn, so
+    # that the prescriptions of all seeds stay what they were): wavelengths and aperture may come
+    # before the surfaces
+    wl_first = int(epd * 1e6) % 3 == 0
+    ap_first = int(epd * 1e6) % 4 == 1
+    ap_value = {"EPD": epd, "imageFNO": None, "objectNA": None}[aperture]
+    if wl_first:
+        for i, w in enumerate(wavelengths or [0.4861, 0.5876, 0.6563]):
+            o.add_wavelength(w, is_primary=(i == 1 or len(wavelengths or [1, 2, 3]) == 1))
+    if ap_first and ap_value is not None:
+        o.set_aperture(aperture, ap_value)
     o.add_surface(index=0, thickness=obj_t)
     stop_at = stop if stop is not None else rnd.randint(1, n)
     in_glass = False
@@ -114,6 +125,10 @@ def random_lens(rnd, nsurf=None, kinds=("standard",), mirrors=False, tilts=False
             meta["mirror"] = True
         elif in_glass and m < 0.75:
             material = "air"
+        elif (not in_glass) and m > 0.94 and (coatings or apertures):
+            # a dummy surface between equal media (a filter, foil or stop plane): it bends nothing, but
+            # its coating and aperture act like anywhere else
+            material = "air"
         elif catalogue and m > 0.8:
             material = rnd.choice(GLASSES)
         else:
@@ -149,8 +164,9 @@ def random_lens(rnd, nsurf=None, kinds=("standard",), mirrors=False, tilts=False
         meta["curved_image"] = True
     else:
         o.add_surface(index=n + 1)
-    o.set_aperture(aperture, {"EPD": epd, "imageFNO": rnd.uniform(2.0, 10.0),
-                              "objectNA": rnd.uniform(0.01, 0.1)}[aperture])
+    ap_drawn = {"EPD": epd, "imageFNO": rnd.uniform(2.0, 10.0), "objectNA": rnd.uniform(0.01, 0.1)}[aperture]
+    if not (ap_first and ap_value is not None):
+        o.set_aperture(aperture, ap_drawn)
     if field_type is None:
         field_type = "object_height" if (finite_object and rnd.random() < 0.6) else "angle"
     mf = max_field if max_field is not None else (rnd.uniform(0.5, 6.0) if field_type == "angle" else rnd.uniform(0.5, 5.0))
@@ -166,9 +182,10 @@ def random_lens(rnd, nsurf=None, kinds=("standard",), mirrors=False, tilts=False
     if fields_first:
         o.set_field_type(field_type)
         meta["fields_added_before_field_type"] = True
-    for i, w in enumerate(wavelengths or [0.4861, 0.5876, 0.6563]):
-        o.add_wavelength(w, is_primary=(i == 1 or len(wavelengths or [1, 2, 3]) == 1))
-    meta.update(epd=epd, field_type=field_type, max_field=mf)
+    if not wl_first:
+        for i, w in enumerate(wavelengths or [0.4861, 0.5876, 0.6563]):
+            o.add_wavelength(w, is_primary=(i == 1 or len(wavelengths or [1, 2, 3]) == 1))
+    meta.update(epd=epd, field_type=field_type, max_field=mf, wavelengths_first=wl_first, aperture_first=ap_first)
     # A lens is a prescription, however it came about: in a quarter of the lenses one radius, one
     # index and one thickness are edited away and back through the public setters.  (Drawn from a
     # generator seeded at the very end, so that the prescriptions of all seeds stay what they were.)
